@@ -18,8 +18,7 @@ any flux function; `Driver/C04.lean` and `reflective_no_mass_energy` plug in C05
 * `doGradientCalculation`, `doGhostGradientCalculation` — 710-779
 * `updateConserved`        — `HydroDensitySubGrid::update_conserved_variables` (153-201)
 * `setPrimitive`           — `Hydro::set_primitive_variables` (265-326), adiabatic (`γ > 1`) branch
-* the grid level: `applyOp` (one call of the sweeps on the grid of cell states, including the
-  aliasing `left_state == right_state` of a periodic axis with a single cell) and `hydroStep`.
+The grid level (`applyOp`, `hydroStep`) is in `Model/HydroStep.lean`.
 
 `tiny` = `DBL_MIN`, `ovf` = threshold of `std::isinf(1/x)` (see `RiemannVacuum.lean`).
 `SAFE_HYDRO_VARIABLES` and `FLUX_LIMITER` are defined in Hydro.hpp (lines 40, 43); the model
@@ -354,93 +353,4 @@ def setPrimitive (g vmax ovf invVol : α) (U : Q α) : Q α := (setPrimitiveTag 
 
 end
 
-/-! ## The grid of cells
-
-`Grid σ` = one state per cell (global coordinates).  `applyOp` is one call of the sweeps: a pair
-interaction updates first the left then the right cell *of the current grid* (so that
-`left_state` and `right_state` may be the same object, as on a periodic axis with one cell).
-The physics is a parameter (`Phys`): contributions computed from the two cell states, and how they
-are added to the left / right cell. -/
-
-abbrev Cell := Nat × Nat × Nat
-abbrev Grid (σ : Type) := Cell → σ
-
-/-- one call made by a sweep: a pair interaction along `ax` (left cell, right cell) or a ghost
-interaction of `cell` at its upper / lower box boundary -/
-inductive Op where
-  | pair (ax : Axis) (l r : Cell)
-  | ghost (ax : Axis) (up : Bool) (cell : Cell)
-deriving DecidableEq, Repr
-
-/-- what one kind of sweep (gradient or flux) does with the cell states -/
-structure Phys (σ κ : Type) where
-  /-- the quantity exchanged across a face (`dwdx` and the primitives / the limited flux) -/
-  contrib : Axis → σ → σ → κ
-  ghostContrib : Axis → Bool → σ → κ
-  addLeft : Axis → σ → κ → σ
-  addRight : Axis → σ → κ → σ
-  addGhost : Axis → Bool → σ → κ → σ
-
-def gupd {σ : Type} (s : Grid σ) (x : Cell) (v : σ) : Grid σ := fun y => if y = x then v else s y
-
-def applyOp {σ κ : Type} (P : Phys σ κ) (s : Grid σ) : Op → Grid σ
-  | .pair ax l r =>
-    let k := P.contrib ax (s l) (s r)
-    let s1 := gupd s l (P.addLeft ax (s l) k)
-    gupd s1 r (P.addRight ax (s1 r) k)
-  | .ghost ax up x => gupd s x (P.addGhost ax up (s x) (P.ghostContrib ax up (s x)))
-
-/-- a sweep phase: the calls in the order given -/
-def runOps {σ κ : Type} (P : Phys σ κ) (s : Grid σ) (ops : List Op) : Grid σ :=
-  ops.foldl (applyOp P) s
-
-/-- a per-cell task (slope limiter, prediction, conserved / primitive update) on every cell -/
-def mapCells {σ : Type} (f : σ → σ) (s : Grid σ) : Grid σ := fun x => f (s x)
-
-section
-variable {α : Type} [Add α] [Sub α] [Mul α] [Div α] [Neg α] [LT α] [LE α]
-  [DecidableLT α] [DecidableLE α] [OfScientific α] [ArithFns α]
-
-/-- geometry and parameters of a run: cell sizes, inverse sizes, face areas per axis, time step -/
-structure Params (α : Type) where
-  tiny : α
-  g : α
-  dx : Axis → α
-  dxinv : Axis → α
-  area : Axis → α
-  dt : α
-
-/-- the gradient sweeps (`do_gradient_calculation`, `do_ghost_gradient_calculation`) -/
-def gradPhys (pr : Params α) : Phys (HV α) (Q α × Q α × Q α) where
-  contrib ax L R := (dwdx L.prim R.prim (pr.dxinv ax), R.prim, L.prim)
-  ghostContrib ax up L :=
-    let Wr := reflectiveRightGradient ax L.prim
-    (dwdx L.prim Wr (if up then pr.dxinv ax else -(pr.dxinv ax)), Wr, Wr)
-  addLeft ax h k := gradAddLeft ax h k.1 k.2.1
-  addRight ax h k := gradSubRight ax h k.1 k.2.2
-  addGhost ax _ h k := gradAddLeft ax h k.1 k.2.1
-
-/-- the flux sweeps (`do_flux_calculation`, `do_ghost_flux_calculation`) -/
-def fluxPhys (flux : FluxFn α) (pr : Params α) : Phys (HV α) (Q α) where
-  contrib ax L R := faceFlux flux pr.tiny pr.g ax L R (pr.dx ax) (pr.area ax) pr.dt
-  ghostContrib ax up L :=
-    ghostFaceFlux flux pr.tiny pr.g ax L (if up then pr.dx ax else -(pr.dx ax)) (pr.area ax) pr.dt
-  addLeft _ h k := { h with dcons := h.dcons.sub k }
-  addRight _ h k := { h with dcons := h.dcons.add k }
-  addGhost _ _ h k := { h with dcons := h.dcons.sub k }
-
-/-- one hydro step of the whole grid for given lists of calls: gradient sweeps, slope limiter
-and half-step prediction (per-cell maps, uninterpreted), flux sweeps, conserved and primitive
-update (per-cell maps) — the order `execute_task` runs them for one subgrid; C07 shows that the
-task graph enforces it between neighbours -/
-def hydroStep (flux : FluxFn α) (pr : Params α) (limiter predict updCons updPrim : HV α → HV α)
-    (gradOps fluxOps : List Op) (s : Grid (HV α)) : Grid (HV α) :=
-  let s := runOps (gradPhys pr) s gradOps
-  let s := mapCells limiter s
-  let s := mapCells predict s
-  let s := runOps (fluxPhys flux pr) s fluxOps
-  let s := mapCells updCons s
-  mapCells updPrim s
-
-end
 end CMacVerif.HydroUpdate
